@@ -12,43 +12,43 @@ MANIFEST = dict(
                "search_encasing_node; round-trip lemmas per statement / declaration form up to whole files; operator ladder regenerated "
                "from body_parser.rs by translator T3 with by-computation obligations. Differential run (extracted model vs lex+parse_gold) "
                "with an independent tree oracle from a grammar-directed generator."),
-    text=("PROVED (Properties/C06.v, all Closed under the global context; memoisation off, its invisibility is C07): the ladder regenerated "
-          "from body_parser.rs is the model's ladder level by level and is well formed (no empty level, levels disjoint, no operator starts a "
-          "primary except '-', none continues an identifier). C06_binops_roundtrip(_generic): for ANY ladder and operand parser, an expression "
-          "derivable at level k (left operand of a level-j operator of level >= j, right operand of level > j) parses with the level-k parser "
-          "to exactly its tree, whatever follows, unbounded depth; C06_paren_roundtrip: any expression with parentheses inserted exactly where "
-          "needed parses to its own tree. C06_expr_roundtrip: the real grammar -- identifiers, literals, parentheses, prefix/postfix operators, "
-          "dot chains, method calls with argument lists, array accesses, set literals, all 8 binary levels -- g_expr(gram fuel) returns the derived "
-          "tree, consumes exactly the derived tokens, adds no diagnostic. C06_precedence / C06_left_assoc / C06_parentheses for ALL operator pairs "
-          "of the generated ladder (+ C06_all_operator_pairs_computed: all 529 pairs by vm_compute on the memoised model). C06_range_encloses, "
-          "C06_innermost_is_ident: under the explicit token-order hypothesis every node of an expression tree encloses its children, siblings are "
-          "strictly ordered, and search_encasing_node at any position of a terminal's token returns that terminal. C06_stmt_roundtrip: assignment, "
-          "expression statement (dot chain/call, postfix), return, exit/break/continue, comment, var of a basic type, while, loop, repeat-until, "
-          "for (to/downto, optional step), if/elseif/else with arbitrarily nested bodies. C06_file_roundtrip_partial: class/module header, uses, constants, fields of a basic type, "
-          "comments, procedures and functions without parameter list and modifiers over those statements: parse_gold returns exactly the derived "
-          "declarations, all tokens consumed, zero diagnostics. "
-          "CORRESPONDENCE ONLY (a test): parameters, modifiers, forward/external, method#event, type declarations and all non-basic type forms, "
-          "memory/absolute/multilang, annotations, foreach/switch/OQL statements, const/uses/type inside bodies, the memoised parser on "
-          "whole files, the lexer (text -> tokens) in front of the parser, random layout. The test: all ordered operator pairs of the regenerated "
-          "ladder plain and with both bracketings (expected trees from the property's own precedence table), each of the 17 statement forms "
-          "inside every body of each of the 7 block statements, random generated programs under random layout; model = implementation on the "
-          "complete observation, and on the implementation's output alone: zero diagnostics, nothing unconsumed, the generator's expected shape "
-          "(same kinds, names, nesting, order; comment nodes aside: comments are layout), every range encloses its children's, search_encasing_node finds every identifier terminal."),
-    note=("Partial by design: the proof covers the sub-grammar listed above; the rest of the grammar is covered by the differential test only. "
-          "Token-order hypothesis of the range theorems (lexer output is ordered, non-literal tokens non-empty) is assumed explicitly (C08/C05). "
-          "Enclosure: the only exception found is AstRoot (default range 0:0-0:0). AstFunction's children are not in source order (name, return "
-          "type, parameters, body) but enclosed and pairwise disjoint, so the lookup is unaffected; a multi-line string literal's token END lies on its "
-          "start line, parents take their end from the same token, enclosure holds (hand-written multi-line programs in the run). "
+    text=("PROVED (Properties/C06.v, all Closed under the global context): the ladder regenerated from body_parser.rs is the model's ladder level by "
+          "level and is well formed. C06_binops_roundtrip(_generic) / C06_paren_roundtrip: precedence climbing for ANY ladder and operand parser, unbounded "
+          "depth. C06_expr_roundtrip: the whole expression grammar (identifiers, literals, parentheses, prefix/postfix operators, dot chains, calls with "
+          "argument lists, array accesses, set literals, all 8 binary levels); C06_precedence / C06_left_assoc / C06_parentheses for ALL operator pairs "
+          "(+ all 529 pairs by vm_compute on the memoised model). C06_range_encloses, C06_innermost_is_ident for expression trees under the explicit "
+          "token-order hypothesis. C06_type_roundtrip: every type form (basic, sized, enum, refto/listof with options and inverse, literal ranges, sets, "
+          "pointers, instanceof, array/sequence with one or two indexes, records with parent and nested field types, proc/func types); "
+          "C06_params_roundtrip: absent/empty/typed/untyped parameters with const/var/inout. C06_stmt_roundtrip: assignment, expression statement, "
+          "return, exit/break/continue, comment, var (any type, optional absolute), const/uses/type inside bodies, while, loop, repeat-until, for, "
+          "foreach (downto/using), switch with when value lists / ranges and else, if/elseif/else, arbitrarily nested. C06_decl_roundtrip: class/module "
+          "header, uses, const (multilang), type declarations, fields (annotation, memory, any type, member modifiers, absolute), comments, proc/func "
+          "with plain or method#event names, parameter lists, modifiers private/protected/final/override/forward/external (forward/external: no body). "
+          "C06_file_roundtrip: for every derivable file, parse_gold ITSELF (memoised, default fuel) returns exactly the derived declarations, every "
+          "token consumed, zero diagnostics; C06_file_roundtrip_any: the same for memoisation on/off and ANY fuel above the number of tokens -- no "
+          "hypothesis on the derivation level (C06_parse_gold_fuel_independent: C07's memo simulation at two independent fuel levels). "
+          "CORRESPONDENCE ONLY (a test): OQL select/fetch statements, annotations in front of declarations other than fields, composed types "
+          "(T + (a, b)), range enclosure / position lookup for statement and declaration nodes (proved for expression trees only), the lexer "
+          "(text -> tokens) in front of the parser, random layout. The test: all ordered operator pairs of the regenerated ladder plain and with both "
+          "bracketings (expected trees from the property's own precedence table), each of the 20 statement forms inside every body of each of the 7 "
+          "block statements, random generated programs (every construct above, incl. untyped parameters, annotations, uses/type/var-absolute in bodies) "
+          "under random layout; model = implementation on the complete observation, and on the implementation's output alone: zero diagnostics, nothing "
+          "unconsumed, the generator's expected shape (same kinds, names, nesting, order; comment nodes aside: comments are layout), every range "
+          "encloses its children's, search_encasing_node finds every identifier terminal."),
+    note=("The file theorem is about parse_gold itself (memoisation on, default fuel): C07's simulation, restated for two fuel levels in "
+          "Proofs/FuelIndep.v, transfers the memo-off round trip. Token-order hypothesis of the range theorems (lexer output is ordered, non-literal "
+          "tokens non-empty) is assumed explicitly (C08/C05). Enclosure: the only exception found is AstRoot (default range 0:0-0:0). AstFunction's "
+          "children are not in source order (name, return type, parameters, body) but enclosed and pairwise disjoint, so the lookup is unaffected; a "
+          "multi-line string literal's token END lies on its start line, parents take their end from the same token, enclosure holds. "
           "Comments between statements are layout (the property's quantifier): trees are compared modulo AstComment nodes, comments are generated in every "
           "position. Documented fact about the grammar, not a refutation (C06_comment_node_dropped_before_block): a comment directly in front of a block "
-          "statement, a block terminator or a top-level proc/func yields no AstComment node (exp_token skips comments), elsewhere the node is kept; "
-          "evidence records comments generated vs comment nodes found."),
+          "statement, a block terminator or a top-level proc/func yields no AstComment node (exp_token skips comments), elsewhere the node is kept."),
     design="6 C06",
     engines=[dict(name="E-parse", path="harness/src/eng_parse.rs, treedump.rs + coq/extract/eng_parse.ml, tree_io.ml",
                   kind_free_text="differential: lex+parse_gold vs extracted Coq lexer+parser model on generated programs; independent oracle: expected tree shape from vlib/goldgen.py + checks/c06gen.py, range enclosure, search_encasing_node re-implemented over the dump")],
 )
 ASSUMPTIONS = [
-    "the theorems are about the un-memoised grammar (cmemo = false); C07 shows memoisation invisible; the differential run and C06_all_operator_pairs_computed use the memoised parser",
+    "construct-level theorems (expressions, types, statements, declarations) are about the un-memoised grammar (cmemo = false); the file-level theorem C06_file_roundtrip is about the memoised parse_gold, via C07's simulation (Proofs/FuelIndep.v)",
     "range theorems assume the token-order hypothesis tord explicitly (ranges well formed, consecutive tokens do not overlap, non-literal tokens non-empty): a statement about lexer output (C05/C08)",
     "the operator ladder is regenerated from /repo/src/parser/body_parser.rs on every run (translator T3); lexemes of the operators are cross-validated against the real lexer",
     "the generator's expected trees (vlib/goldgen.py) and the precedence table goldgen.OP_LEVELS are the property's specification, independent of model and code",
@@ -214,7 +214,7 @@ def correspondence(ctx, broken_obligations=()):
     cov["comment_nodes_in_trees"] = stats.get("comment_nodes_found", 0)
     cov["exhaustive"] = True
     cov["rule"] = ("exhaustive: all %d ordered pairs of the %d operators of the regenerated ladder as `x = a op1 b op2 c`, `(a op1 b) op2 c`, "
-                   "`a op1 (b op2 c)` with trees from the property's precedence table; each of the 17 statement forms first in every body of each "
+                   "`a op1 (b op2 c)` with trees from the property's precedence table; each of the 20 statement forms first in every body of each "
                    "of the 7 block statements and directly in a method (x%d seeds); random: %d programs of Gen.gen_program (depth 3) with random "
                    "keyword case, 60%% re-laid-out (indentation, trailing blanks, blank lines, LF/CRLF). Oracle on the implementation alone: rest 0, "
                    "zero diagnostics, expected shape modulo comment nodes, range enclosure, search_encasing_node at start/middle/end of every identifier terminal. "
